@@ -9,7 +9,8 @@
 (***************************************************************************)
 EXTENDS Store, XGen
 
-CONSTANT EmitOn   \* TRUE in the generator configuration
+CONSTANTS EmitOn,  \* TRUE in the generator configuration
+          EmitFam  \* "C01" | "C04": which family the generator writes
 
 C_ElemNames == {Nm(<<>>, <<"a">>), Nm(U1, <<"a">>), Nm(<<>>, <<"b">>)}
 C_AttrNames == {Nm(<<>>, <<"a">>), Nm(U1, <<"a">>)}
@@ -51,6 +52,19 @@ Tests == {T_node, T_text, T_comment, T_pi, T_pit(<<"t">>), T_any,
 \* name tests on the namespace axis follow the library's own rule: outside the property
 InScope(ax, t) == ax = "namespace" => t.k \in {"node", "any", "text", "comment", "pi", "pit"}
 Pool == SetToSeq({Rel(<<Step(ax, t)>>) : <<ax, t>> \in {x \in AxisNames \X Tests : InScope(x[1], x[2])}})
-ASSUME EmitOn => EmitPool("C01.steps", Pool)
-Emit == (EmitOn /\ Complete) => EmitLine("C01.steps", doc, Env, AllCCases(doc, Env, Pool))
+\* C04: the string-value of every node kind, and node-set -> string / number / boolean through
+\* the first node in document order (also for sets produced by reverse axes)
+FnS(nm, args) == Call(nm, args)
+AxNode(ax) == Rel(<<Step(ax, T_node)>>)
+PoolC04 == << FnS(<<"s","t","r","i","n","g">>, <<>>), FnS(<<"s","t","r","i","n","g">>, <<Rel(<<Self>>)>>), FnS(<<"n","u","m","b","e","r">>, <<>>),
+              FnS(<<"b","o","o","l","e","a","n">>, <<Rel(<<Self>>)>>), FnS(<<"s","t","r","i","n","g","-","l","e","n","g","t","h">>, <<>>) >>
+           \o [i \in 1..Len(SetToSeq(AxisNames \ {"namespace"})) |-> FnS(<<"s","t","r","i","n","g">>, <<AxNode(SetToSeq(AxisNames \ {"namespace"})[i])>>)]
+           \o << FnS(<<"c","o","n","c","a","t">>, <<AxNode("ancestor-or-self"), Lit(<<"|">>), AxNode("preceding")>>),
+                 FnS(<<"b","o","o","l","e","a","n">>, <<AxNode("preceding-sibling")>>),
+                 FnS(<<"n","u","m","b","e","r">>, <<AxNode("ancestor")>>), Bin("eq", AxNode("preceding"), Lit(<<"x">>)),
+                 FnS(<<"s","t","r","i","n","g">>, <<Abs(<<>>)>>), FnS(<<"n","o","t">>, <<FnS(<<"n","o","t">>, <<AxNode("child")>>)>>) >>
+ASSUME EmitOn => EmitPool("C01.steps", Pool) /\ EmitPool("C04.nodes", PoolC04)
+Emit == (EmitOn /\ Complete) =>
+  IF EmitFam = "C04" THEN EmitLine("C04.nodes", doc, Env, AllCCases(doc, Env, PoolC04))
+  ELSE EmitLine("C01.steps", doc, Env, AllCCases(doc, Env, Pool))
 =============================================================================
